@@ -187,7 +187,7 @@ static rc::Gen<HCase> genHistory(int secureOnly, int datasetPct) {
 			Hash, Hash, Hash, Hash, Hash, Hash, Hash, BatchFirst, BatchNext, BatchNext, BatchLast, Churn, ReleaseBoundCache, ReleaseBoundCache, AllocInitCacheFor, AllocInitCacheFor, AllocInitCacheFor, SetCacheLast, SetCacheLast, SetCacheLast, Hash, BatchRun, BatchRun};
 		return Cmd{table[w % (sizeof table / sizeof table[0])], a, b, c};
 	}, gen::inRange(0, 41), gen::inRange(0, 64), gen::inRange(0, 64), gen::inRange(0, 4));
-	return gen::resize(100, gen::apply([=](std::vector<Cmd> cmds, Bytes k1, Bytes k2, std::vector<Bytes> inputs, int pattern, int reuse, int dsRoll) {
+	return gen::resize(100, gen::apply([=](std::vector<Cmd> cmds, Bytes k1, Bytes k2, std::vector<Bytes> inputs, int pattern, int reuse, int dsRoll, int scen) {
 		HCase c; c.secureOnly = secureOnly;
 		// key universe: a generated key, the empty key, a key longer than 60 bytes, and *relatives* of the first key (same length, differing
 		// only in the last byte; with an embedded zero byte in front of the difference; a proper prefix / zero-extended version) - keys that
@@ -200,12 +200,18 @@ static rc::Gen<HCase> genHistory(int secureOnly, int datasetPct) {
 		c.inputs = inputs;
 		// a fixed prologue makes most histories productive: cache, init, vm
 		c.cmds = {Cmd{AllocCache, 1, 0, 0}, Cmd{InitCache, 0, 0, 0}, Cmd{CreateVm, 0, 1, 0}};
+		// in a third of the histories the prologue continues with the rebinding scenario on a VM of a generated class (interpreted ones
+		// dereference the cache object on every dataset read, compiled ones only its memory): hash, release the cache the VM is bound to,
+		// allocate + initialise a new cache object with the same key (the allocator hands the 256 MiB block out again at the same address),
+		// bind the VM to it, hash. This is the history of the set_cache defect found on the pinned tree; with purely generated commands a
+		// quick run reached it under one seed in four (measured by reverting the fix), with the scenario prologue under every seed tried.
+		if (scen % 3 == 0) { c.cmds[2].b = scen % 6; c.cmds.push_back(Cmd{Hash, 0, scen, 0}); c.cmds.push_back(Cmd{ReleaseBoundCache, 0, 0, 0}); c.cmds.push_back(Cmd{AllocInitCacheFor, 0, scen & 1, 1}); c.cmds.push_back(Cmd{SetCacheLast, 0, 0, 0}); c.cmds.push_back(Cmd{Hash, 0, scen + 1, 0}); }
 		bool ds = dsRoll < datasetPct;
 		for (auto& k : cmds) { if (!ds && (k.op == AllocDataset || k.op == InitDataset)) k.op = Hash; c.cmds.push_back(k); }
 		static const int pats[] = {0xA5, 0xFF, 0x00, 0x7F, 0xDD};
 		c.pattern = pats[pattern]; c.reuse = reuse;
 		return c;
-	}, gen::container<std::vector<Cmd>>(cmdGen), vg::genKey(), vg::genKey(), gen::container<std::vector<Bytes>>(6, vg::genInput()), gen::inRange(0, 5), gen::inRange(0, 4), gen::inRange(0, 100)));
+	}, gen::container<std::vector<Cmd>>(cmdGen), vg::genKey(), vg::genKey(), gen::container<std::vector<Bytes>>(6, vg::genInput()), gen::inRange(0, 5), gen::inRange(0, 4), gen::inRange(0, 100), gen::inRange(0, 18)));
 }
 
 static HCase minimizeHistory(HCase c, const std::function<bool(const HCase&)>& fails) {
